@@ -64,7 +64,7 @@ CHECKS = {
          "Generated (tree, include list, exclude list, map function) cases over sibling-confusable names and a pattern grammar; known finding K1 (moby/patternmatcher) is triaged by comparing with the incremental-unpruned reference. Held on the executions observed.",
          "Single-pattern matching is moby/patternmatcher's on both sides; where the statement is silent (map result on lazily emitted parents) every outcome is accepted.", "DESIGN.md §5 C10"),
  "C12": ("exploration", "runtime differential monitor: real Validator vs executable specification on exhaustively enumerated bounded sequences + random long ones; order axioms on all pairs/triples",
-         "Every sequence up to the length bound over a 25-path x {dir,file,delete} alphabet is executed against a fresh real Validator and compared (decision and rejection index) with a 15-line specification; ComparePath is compared with component-wise comparison and the strict-total-order axioms on all pairs/triples of an adversarial path alphabet. Held on the executions observed; bounded, not a proof.",
+         "Every sequence up to the length bound over a 30-path x {dir,file,delete} alphabet is executed against a fresh real Validator and compared (decision and rejection index) with a 15-line specification; ComparePath is compared with component-wise comparison and the strict-total-order axioms on all pairs/triples of an adversarial path alphabet. Held on the executions observed; bounded, not a proof.",
          "Trusts the specification in harness/cmd/vrun/c12.go and Go's path.Clean; unix separators only.", "DESIGN.md §5 C12"),
 }
 NOT_YET = "monitor for this property is designed in DESIGN.md §5 but not built yet in this round; not claimed until it runs"
